@@ -6,7 +6,11 @@ import pandas as pd
 from pandas.api import types as pdt
 
 from visions.backends.pandas import test_utils
-from visions.backends.pandas.series_utils import series_not_empty, series_not_sparse
+from visions.backends.pandas.series_utils import (
+    series_handle_nulls,
+    series_not_empty,
+    series_not_sparse,
+)
 from visions.backends.shared.parallelization_engines import pandas_apply
 from visions.types.complex import Complex
 from visions.types.string import String
@@ -30,6 +34,7 @@ def convert_to_complex_series(series: pd.Series) -> pd.Series:
 
 
 @Complex.register_relationship(String, pd.Series)
+@series_handle_nulls
 def string_is_complex(series: pd.Series, state: dict) -> bool:
     coerced_series = test_utils.option_coercion_evaluator(convert_to_complex_series)(
         series
